@@ -6,5 +6,8 @@ import QlibcModel.Props.C20
 #print axioms Qlibc.Props.C20.ac_tokenize
 #print axioms Qlibc.Props.C20.ini_roundtrip
 #print axioms Qlibc.Props.C20.ini_roundtrip_partial
+#print axioms Qlibc.Props.C20.ac_callbacks
+#print axioms Qlibc.Props.C20.ac_accept_iff
+#print axioms Qlibc.Props.C20.ac_accept_iff_count
 #print axioms Qlibc.Props.C20.ac_accept_iff_partial
 #print axioms Qlibc.Props.C20.ac_accept_iff_result
